@@ -54,17 +54,20 @@ def random_ops(rng):
     return ops
 
 
+DEEP = (2, 5, 6)      # indices into PREFIXES explored one level deeper
+
+
 def histories(ctx):
-    depth = ctx.pick(2, 3)
+    """Exhaustive suffixes over the whole alphabet (27 ops) after every prefix: quick = length <= 1 everywhere and
+    <= 2 after login / an established passive / active data connection; thorough = <= 2 everywhere, <= 3 after login."""
     out = []
-    for pre in PREFIXES:
+    for i, pre in enumerate(PREFIXES):
+        depth = ctx.pick(2 if i in DEEP else 1, 3 if i == 2 else 2)
         for n in range(0, depth + 1):
-            if n == 3 and len(pre) not in (2, 4):      # thorough: depth 3 after login / after login+PASV|PORT+dconn
-                continue
             for suf in itertools.product(ALPHA, repeat=n):
                 out.append(pre + list(suf))
     nexh = len(out)
-    for _ in range(ctx.pick(1500, 40000)):
+    for _ in range(ctx.pick(1200, 20000)):
         out.append(random_ops(ctx.rng))
     return out, nexh
 
